@@ -18,7 +18,6 @@ def install(reg: Registry):
 
     # ---- AttackGraphNode.full_name (property)
     reg.add(Contract(MN + ':AttackGraphNode.full_name', {'self': Obj(NODE)}, returns=T.str, is_property=True, pure=True,
-                     requires=lambda c: [('asset-truthy', z3.Or(is_VNone(c.old.f('asset', c.self)), is_VRef(c.old.f('asset', c.self))))],
                      ensures=lambda c: [('def', c.res == full_name(c.old, c.self))], props=('C02', 'C09'),
                      note='asset truthiness: a library asset has __len__ >= 2 (PJS)'))
 
@@ -44,39 +43,66 @@ def install(reg: Registry):
                      ensures=lambda c: [('def', c.res == enabled(c, False))], props=('C12',)))
 
     # ---- Attacker.compromise / undo_compromise (C11)
-    def comp_requires(c):
-        return [('wf.' + nm, f) for nm, f in wf_graph(c.old, c.G)] + [
-            ('self-in-G', is_att(c.old, c.G, c.self)), ('node-in-G', is_node(c.old, c.G, c.node))]
-
-    def comp_ensures(add):
-        def ens(c):
-            o, h, a, n, G = c.old, c.h, c.self, c.node, c.G
+    # Minimal precondition (so that callers may use them while the graph invariant is temporarily broken, e.g. inside
+    # remove_node / add_attacker): the two lists are separate, owned containers and the pair (attacker, node) agrees.
+    # The exact delta is the postcondition; preservation of wf_graph is lemma COMP-WF below.
+    def comp_requires_of(a_name, n_name):
+        def req(c):
+            o = c.old
+            a, n = getattr(c, a_name), getattr(c, n_name)
             R, C = o.f('reached_attack_steps', a), o.f('compromised_by', n)
-            was = cb(o, n, a) > 0
-            out = [('wf.' + nm, f) for nm, f in wf_graph(h, G)]
-            delta = 1 if add else -1
-            changes = z3.Not(was) if add else was
-            out += [
-                ('frame.lists', lists_unchanged_except(o, h, [R, C])),
-                ('noop', z3.Implies(z3.Not(changes), z3.And(list_unchanged(o, h, R), list_unchanged(o, h, C)))),
-                ('reached', z3.Implies(changes, h.bagof(R) == z3.Store(o.bagof(R), VRef(n), o.bag(R, VRef(n)) + delta))),
-                ('compromised_by', z3.Implies(changes, h.bagof(C) == z3.Store(o.bagof(C), VRef(a), o.bag(C, VRef(a)) + delta))),
-                ('len', z3.Implies(changes, z3.And(h.len(R) == o.len(R) + delta, h.len(C) == o.len(C) + delta))),
-                ('agree', (reached(h, a, n) > 0) == (cb(h, n, a) > 0)),
-                ('result', (cb(h, n, a) > 0) == z3.BoolVal(add)),
-            ]
-            if add:
-                out.append(('appended-last', z3.Implies(changes, z3.And(
-                    h.at(R, o.len(R)) == VRef(n), h.at(C, o.len(C)) == VRef(a)))))
-            return out
-        return ens
+            return [('own-reached', z3.And(o.own_obj(R) == a, o.own_fld(R) == field_id('reached_attack_steps'))),
+                    ('own-compromised_by', z3.And(o.own_obj(C) == n, o.own_fld(C) == field_id('compromised_by'))),
+                    ('pair-agrees', z3.And(reached(o, a, n) == cb(o, n, a), reached(o, a, n) >= 0, reached(o, a, n) <= 1))]
+        return req
+
+    def comp_delta(o, h, a, n, add):
+        R, C = o.f('reached_attack_steps', a), o.f('compromised_by', n)
+        was = cb(o, n, a) > 0
+        delta = 1 if add else -1
+        changes = z3.Not(was) if add else was
+        out = [
+            ('frame.lists', lists_unchanged_except(o, h, [R, C])),
+            ('noop', z3.Implies(z3.Not(changes), z3.And(list_unchanged(o, h, R), list_unchanged(o, h, C)))),
+            ('reached', z3.Implies(changes, h.bagof(R) == z3.Store(o.bagof(R), VRef(n), o.bag(R, VRef(n)) + delta))),
+            ('compromised_by', z3.Implies(changes, h.bagof(C) == z3.Store(o.bagof(C), VRef(a), o.bag(C, VRef(a)) + delta))),
+            ('len', z3.Implies(changes, z3.And(h.len(R) == o.len(R) + delta, h.len(C) == o.len(C) + delta))),
+            ('agree', z3.And(reached(h, a, n) == cb(h, n, a), reached(h, a, n) == (1 if add else 0))),
+        ]
+        if add:
+            out.append(('appended-last', z3.Implies(changes, z3.And(
+                h.at(R, o.len(R)) == VRef(n), h.at(C, o.len(C)) == VRef(a)))))
+        return out
+
     for name, add in (('compromise', True), ('undo_compromise', False)):
-        reg.add(Contract(MA + ':Attacker.' + name, {'self': Obj(ATT), 'node': Obj(NODE)}, ghosts=Gs,
-                         requires=comp_requires, ensures=comp_ensures(add), modifies=LIST_ARRAYS, props=('C11', 'C09')))
-        # node-side delegates
-        reg.add(Contract(MN + ':AttackGraphNode.' + name, {'self': Obj(NODE), 'attacker': Obj(ATT)}, ghosts=Gs,
-                         requires=lambda c: [('wf.' + nm, f) for nm, f in wf_graph(c.old, c.G)] + [
-                             ('self-in-G', is_node(c.old, c.G, c.self)), ('attacker-in-G', is_att(c.old, c.G, c.attacker))],
-                         ensures=(lambda add: lambda c: comp_ensures(add)(
-                             CCtx(c.old, c.h, {'self': c.sv('attacker'), 'node': c.sv('self')}, c.ghosts, c.result)))(add),
+        reg.add(Contract(MA + ':Attacker.' + name, {'self': Obj(ATT), 'node': Obj(NODE)},
+                         requires=comp_requires_of('self', 'node'),
+                         ensures=(lambda add: lambda c: comp_delta(c.old, c.h, c.self, c.node, add))(add),
                          modifies=LIST_ARRAYS, props=('C11', 'C09')))
+        reg.add(Contract(MN + ':AttackGraphNode.' + name, {'self': Obj(NODE), 'attacker': Obj(ATT)},
+                         requires=comp_requires_of('attacker', 'self'),
+                         ensures=(lambda add: lambda c: comp_delta(c.old, c.h, c.attacker, c.self, add))(add),
+                         modifies=LIST_ARRAYS, props=('C11', 'C09')))
+
+    # ---- lemma COMP-WF: on a well-formed graph, compromise / undo_compromise (either side) preserve wf_graph, and the
+    # precondition of the contracts follows from wf_graph and membership  (C11 "at every point ... exactly when")
+    def lemma_comp_wf(reg):
+        from pyvc.theory import H
+        out = []
+        for add in (True, False):
+            o = H.fresh(reg.schema, 'cw0')
+            h = o.with_(L_len=z3.Const('L_len!cw1', o.arr['L_len'].sort()), L_at=z3.Const('L_at!cw1', o.arr['L_at'].sort()),
+                        L_bag=z3.Const('L_bag!cw1', o.arr['L_bag'].sort()))
+            G, a, n = z3.Const('G!cw', Addr), z3.Const('a!cw', Addr), z3.Const('n!cw', Addr)
+            hyps = [f for _, f in wf_graph(o, G)] + [is_att(o, G, a), is_node(o, G, n)]
+            tag = 'compromise' if add else 'undo'
+            class C0:  # minimal context for comp_requires_of
+                old = o
+            C0.self = a; C0.node = n
+            for (nm, f) in comp_requires_of('self', 'node')(C0):
+                out.append(('%s.pre.%s' % (tag, nm), hyps, f))
+            hyps2 = hyps + [f for _, f in comp_delta(o, h, a, n, add)]
+            for (nm, f) in wf_graph(h, G):
+                out.append(('%s.wf.%s' % (tag, nm), hyps2, f))
+        return out
+    reg.add_lemma('COMP-WF.compromise-and-undo-preserve-wf_graph', ('C11', 'C09'), lemma_comp_wf)
